@@ -195,7 +195,8 @@ class Extractor:
                 tab = v.table
                 tab.name = t.id
                 tab.version = len([x for x in self.all_tables if x.name == t.id])
-                tab.id = f"{self.func.name}.{t.id}#{tab.version}"
+                nsame = len([x for x in self.shared["tables"] if x.id.split("@")[0] == f"{self.func.name}.{t.id}#{tab.version}"])
+                tab.id = f"{self.func.name}.{t.id}#{tab.version}" + (f"@{nsame}" if nsame else "")
                 tab.owner = self
                 for k, lab in enumerate(tab.labels):
                     if isinstance(lab.base, tuple) and lab.base[0] == "tab":
@@ -513,6 +514,17 @@ class Extractor:
                 if lab.is_one():
                     out.append(lab)  # slicing a length-1 axis (0:1, 0:) keeps it
                     continue
+                if isinstance(lab.base, tuple) and lab.base[:2] == ("dim", "K"):
+                    self.shared.setdefault("events", []).append(("K-slice", self.func, e, lab.base[2]))
+                if lab.base == "xyz":
+                    if ix.kind == "unit" and ix.value.is_number:
+                        # a length-1 window of the component axis singles out one component (and then broadcasts)
+                        self.shared.setdefault("events", []).append(("xyz-const", self.func, e, int(ix.value)))
+                        val = val.subs(c, ix.value)
+                        out.append(ONE)
+                        continue
+                    if ix.kind != "full":
+                        self.err("partial slice of the Cartesian-component axis", e)
                 if ix.kind == "unit":
                     out.append(Lab(lab.base, lab.lo + ix.value, 0, unit=True))
                 elif ix.kind in ("slice", "full"):
@@ -528,7 +540,11 @@ class Extractor:
                 if lab.base == "xyz":
                     if not k.is_number:
                         self.err("Cartesian-component axis indexed by a non-constant", e)
+                    self.shared.setdefault("events", []).append(("xyz-const", self.func, e, int(k)))
                     val = val.subs(c, k)
+                    continue
+                if isinstance(lab.base, tuple) and lab.base[:2] == ("dim", "K"):
+                    self.shared.setdefault("events", []).append(("K-index", self.func, e, lab.base[2]))
                     continue
                 if isinstance(lab.base, tuple) and lab.base[0] == "ar":
                     # a single entry of an arange
@@ -766,6 +782,10 @@ class Extractor:
             if lab.base == "xyz" and not lab.lo and not lab.hi:
                 terms = [val.subs(c, k2) for k2 in range(3)]
                 val = sp.Add(*terms) if kind == "sum" else sp.Mul(*terms)
+                continue
+            if isinstance(lab.base, tuple) and lab.base[:2] == ("dim", "K"):
+                self.shared.setdefault("events", []).append(("K-reduce", self.func, node, lab.base[2]))
+                val = sp.Function("ReduceK")(val)
                 continue
             if isinstance(lab.base, tuple) and lab.base[0] == "ordrow" and kind == "sum":
                 rows = self.shared["order_tables"][lab.base[1]]
